@@ -160,7 +160,19 @@ def r1(ctx: Ctx) -> None:
             else:
                 ok = False
     else:
+        # for v, b, s in pending: self._execute_orders(..., volume=v, buy_order=b, sell_order=s)
         ok = False
+        for l in [e for e in w.main.events if e.kind == "loop" and e.loopkind == "for"]:
+            if not any(fc in bp.events for bp in l.paths):
+                continue
+            how = "for loop"
+            mapped_over = l.iter
+            body_ok = all(bp.exit[0] == "fall" and not bp.conds and len([e for e in calls(bp) if calls_target(e, "Market._execute_orders")]) == 1 for bp in l.paths)
+            if len(l.target) == 3:
+                ok = body_ok and all(kw(fc, n_) == ("sym", f"{l.target[pos]}∈{l.loopid}") for n_, pos in want.items())
+            elif len(l.target) == 1:
+                el = ("sym", f"{l.target[0]}∈{l.loopid}")
+                ok = body_ok and all(kw(fc, n_) == ("sub", el, ("const", pos)) for n_, pos in want.items())
     ok = ok and mapped_over == w.pending_sym
     ctx.check(ok, f, fc.node, "fills are executed for every pending tuple with (volume, buy_order, sell_order) = elements 0, 1, 2",
               "_execute_orders(price=p, volume=x[0], buy_order=x[1], sell_order=x[2]) for every x of the pending list", f"{how}: {got}, over {short(mapped_over)}")
